@@ -3737,6 +3737,11 @@ fn parse_group<'a>(
     // Create a copy of the errors vector for reporting additional errors.
     let mut errors = term.errors.clone();
 
+    // If the right parenthesis was found only after skipping over some tokens, report them.
+    if found {
+        errors.append(&mut phony_errors);
+    }
+
     // Check if we found the right parenthesis.
     if !found {
         // We didn't find it. Report an error.
